@@ -29,7 +29,7 @@ def write_input(lines, name='in.txt', newline='\n') -> Path:
     return p
 
 
-def simulate(lines, at_hook=None, want=('report',), input_name='in.txt', raw_text=None, caching=False):
+def simulate(lines, at_hook=None, want=('report',), input_name='in.txt', raw_text=None, caching=False, params=None):
     os.environ['GEOPHIRES_X_VERIF'] = '1'
     from geophires_x import _verif_hooks
     from geophires_x_client import GeophiresXClient, GeophiresInputParameters
@@ -54,7 +54,7 @@ def simulate(lines, at_hook=None, want=('report',), input_name='in.txt', raw_tex
             f.write(raw_text)
     else:
         p = write_input(lines, input_name)
-    params = GeophiresInputParameters(from_file_path=p)
+    params = GeophiresInputParameters(from_file_path=p) if params is None else GeophiresInputParameters(dict(params), from_file_path=p)
     client = GeophiresXClient(enable_caching=caching)
     out_path = params.get_output_file_path()
     try:
